@@ -72,6 +72,9 @@ func normTrailer(h http.Header) string {
 	sort.Strings(ks)
 	var sb strings.Builder
 	for _, k := range ks {
+		if len(h[k]) == 0 {
+			continue // net/http lists an announced trailer under a nil value until it arrives
+		}
 		vs := make([]string, len(h[k]))
 		for i, v := range h[k] {
 			vs[i] = trimOWS(v)
@@ -136,8 +139,8 @@ func (c *countReader) Read(p []byte) (int, error) {
 
 // refParse runs net/http over the stream: normal forms of the messages it extracts, the offset after each, and
 // whether it stopped with an error (other than a clean EOF at a message boundary).
-// headFirst: the first response answers a HEAD request (the request is context the bytes do not carry).
-func refParse(stream []byte, client, headFirst bool) (forms []string, offs []int, bad string) {
+// heads: which responses answer a HEAD request (the request is context the bytes do not carry).
+func refParse(stream []byte, client bool, heads []bool) (forms []string, offs []int, bad string) {
 	cr := &countReader{r: bytes.NewReader(stream)}
 	br := bufio.NewReaderSize(cr, 4096)
 	for {
@@ -146,7 +149,7 @@ func refParse(stream []byte, client, headFirst bool) (forms []string, offs []int
 		}
 		if client {
 			var req *http.Request
-			if headFirst && len(forms) == 0 {
+			if k := len(forms); k < len(heads) && heads[k] {
 				req = &http.Request{Method: "HEAD"}
 			}
 			res, err := http.ReadResponse(br, req)
@@ -204,6 +207,7 @@ func exec(e *lp.Exec) {
 	lg := &hx.CapLogger{}
 	logging.SetLogger(lg)
 	var client bool
+	var heads []bool
 	var maxBody, limit int
 	var stream []byte
 	var bounds []int // expected message boundaries (cumulative rendered lengths), WF cases only
@@ -230,6 +234,14 @@ func exec(e *lp.Exec) {
 			maxBody, _ = strconv.Atoi(f[2])
 			limit, _ = strconv.Atoi(f[3])
 			client = cl == 1
+			heads = nil
+			if len(f) > 4 {
+				// request context ("h=0110": which responses answer a HEAD request): known to the reference, which is
+				// told the request; nbhttp's client parser has no such input (known finding HTTP-CLIENT-HEAD)
+				for _, c := range strings.TrimPrefix(f[4], "h=") {
+					heads = append(heads, c == '1')
+				}
+			}
 			stream, bounds, nclass = nil, nil, ""
 			key.Reset()
 			nontrivial = false
@@ -314,7 +326,7 @@ func exec(e *lp.Exec) {
 				nbForms = append(nbForms, normSeen(s))
 			}
 			// 3. the reference
-			refForms, refOffs, refBad := refParse(stream, client, strings.HasPrefix(nclass, "resp-head-"))
+			refForms, refOffs, refBad := refParse(stream, client, heads)
 			nb := strings.Join(nbForms, ";")
 			ref := strings.Join(refForms, ";")
 			e.Count("messages", "nbio-delivered:"+strconv.Itoa(len(a.R.Seen)))
@@ -729,6 +741,13 @@ func gen(g *lp.Gen) {
 		cl := 0
 		if client {
 			cl = 1
+		}
+		if client && g.Chance(1, 8) { // replies to HEAD among ordinary responses: request context on the C line
+			heads, raw := genHeadMix(g)
+			g.P("C 1 0 0 h=%s", heads)
+			g.P("X resp-head-with-framing %s", lp.Hex(raw))
+			g.P("F %s", segmentation(g, len(raw)))
+			continue
 		}
 		g.P("C %d 0 0", cl)
 		if g.Chance(1, 5) {
